@@ -234,6 +234,11 @@ class Prop:
             'quoted-key-like-type': ('O', [], None, [(None, '@t3', ('M', [1]))]),
             'quoted-key-and-shortcut': ('O', [], None, [(None, '@t3', ('M', [1])), (3, None, ('M', [2]))]),
             'quoted-key-like-type-deep': ('O', [], None, [(None, '@t2', ('O', [], None, [(None, '@t1', ('A', [('L', 'int', 1, [])]))]))]),
+            # several key shortcuts in one object (each of them is looked up, wherever it stands)
+            'keys-2': ('O', [], None, [(3, None, L), (6, None, L)]),
+            'keys-3': ('O', [], None, [(3, None, L), (6, None, ('M', [1])), (7, None, L)]),
+            'key-plain-key': ('O', [], None, [(3, None, L), (None, 'a', L), (6, None, L)]),
+            'keys-2-deep': ('A', [('O', [], None, [(None, 'a', ('O', [], None, [(6, None, L), (3, None, L)]))])]),
             'allof': ('O', [4], None, []),
             'additional': ('O', [], 2, []),
             'array-item': ('A', [('M', [1]), ('A', [('M', [2])])]),
@@ -243,7 +248,7 @@ class Prop:
             'allof-in-allof': ('O', [4], None, [(None, 'a', ('O', [5], None, []))]),
             'allof-in-allof-array': ('O', [4], None, [(None, 'a', ('A', [('O', [5], 2, [])]))]),
         }
-        bodies = {1: L, 2: L, 3: ('L', 'str', None, []), 4: ('O', [], None, [(None, 'z', L)]), 5: ('O', [], None, [(None, 'y', L)])}
+        bodies = {1: L, 2: L, 3: ('L', 'str', None, []), 6: ('L', 'str', None, []), 7: ('L', 'str', None, []), 4: ('O', [], None, [(None, 'z', L)]), 5: ('O', [], None, [(None, 'y', L)])}
         for nm, root in pos.items():
             need = sorted(set(refs(root)))
             for r in range(len(need) + 1):
